@@ -455,10 +455,14 @@ func (in *interp) record(st *state, l *Line, generated bool) bool {
 		r.TTL = v
 		st.last = ttlVal{set: true, v: v}
 		st.sawExplicit = true
-	} else if generated {
-		r.TTLUnspec = true // DESIGN C06 "Not demanded": the TTL a $GENERATE body inherits
 	} else {
 		v, u, stop, e := in.omittedTTL(st)
+		if generated && (e != "" || stop) {
+			// a generated record is a record of the zone: with a TTL in force ($TTL, last stated, configured
+			// default) it takes that one like any other record. With none in force the library falls back to
+			// 3600 where an ordinary line is an error; the statement does not say which — left open.
+			v, u, e, stop = 0, true, "", false
+		}
 		if e != "" {
 			return in.fail(l, "missing-ttl", "%s", e)
 		}
